@@ -7,6 +7,7 @@ answer:   `ok <value>` | `err` | `viol` | `fuel` | `bad-op`
 -/
 import XrayModel.Gen
 import XrayModel.GenLimits
+import XrayModel.GenProduct
 open XrayModel.Gen
 namespace XrayDriver.GenEng
 
@@ -248,7 +249,24 @@ def gateEngine (f : String) (args : List String) : Option String :=
       | .violRecursion => "viol MaximumRecursion" | .violTimeout => "viol Timeout" | .bodyRuns => "body-runs")
   | _, _ => none
 
+/-- `gen ptoarray <L> <fuel> <tok> … product:<k>`: `to_array` of the product of the last k generators built -/
+def productEngine (args : List String) : Option String :=
+  match args with
+  | l :: fuel :: toks => do
+    let L ← GenEng.parseLimit l
+    let fuel ← fuel.toNat?
+    let last ← toks.getLast?
+    let k ← (match last.splitOn ":" with | ["product", k] => k.toNat? | _ => none)
+    let (st, viol) ← toks.dropLast.foldlM (GenEng.applyTok L) ([], false)
+    let (parts, rest) ← GenEng.popN k st
+    if !rest.isEmpty then none
+    else if viol then pure "viol"
+    else pure (GenEng.showRes (fun vs => "[s" ++ GenEng.showVs vs ++ "]")
+      (pdrain L fuel fuel (pstart L parts) (Permits.ofLimit L) []))
+  | _ => none
+
 def genEngine (f : String) (args : List String) : String :=
+  if f == "ptoarray" then (productEngine args).getD "bad-op" else
   if f == "begincall" || f == "tailiter" then (gateEngine f args).getD "bad-op" else
   match args with
   | l :: fuel :: toks =>
